@@ -272,6 +272,27 @@ def cases_cover(ex, fi, c, label=None):
         return ex.obs, str(e)
 
 
+def materialise_set(ex, st, val, rt):
+    """(state, reference to a NEW heap set of type rt whose members are those of the mathematical set `val`)"""
+    import z3
+    from . import vtypes as T
+    ety, src = rt.args[0], val.ty.args[0]
+    es = T.sort_of(ety)
+    x_ = z3.Const('x!mat', es)
+    if T.sort_of(src) == es:
+        content = val.z
+    elif src.kind == 'union' and ety.kind == 'str':
+        content = z3.Lambda([x_], z3.Select(val.z, T.union_datatype().US(x_)))
+    elif src.kind == 'union' and ety.kind == 'int':
+        content = z3.Lambda([x_], z3.Select(val.z, T.union_datatype().UI(x_)))
+    else:
+        raise VCError(f'cannot store a set of {src!r} as {rt!r}')
+    s2, r = ex.alloc(st, rt, 'setlit')
+    key_, srt = ex.skey(ety)
+    arr = ex.heap_get(s2, key_, srt)
+    return s2.setheap(key_, z3.Store(arr, r.z, content)), r
+
+
 def verify_one(ex, fi, c, label=None, case=None):
     ex.cur_fn = fi.key
     ex.cur_contract = c
@@ -304,6 +325,9 @@ def verify_one(ex, fi, c, label=None, case=None):
             if kind in ('normal', 'return'):
                 val = val if kind == 'return' else NONE_SV
                 s2 = s
+                if rt is not None and rt.kind == 'set' and val.ty.kind == 'mset':
+                    # a set display / set comprehension returned where a set object is expected: a fresh set with that content
+                    s2, val = materialise_set(ex, s2, val, rt)
                 if rt is not None and rt.kind != 'none':
                     s2 = s2.setvar('result', ex.coerce_chk(s2, cx, fi.node, val, rt, f'return value of {fi.key}'))
                 elif val.ty.kind != 'none' and rt is None:
